@@ -319,12 +319,18 @@ def holdsOn (d : Design) (g : Geo) (s : Seq) (sc : Scoped) (a b : Nat) : Bool :=
   | .exactlyK k f l => (levelsOfArg d f l).all (fun l => ((col f).filter (· == some l)).length == k * sc.sustain)
   | .sequential _ => true          -- global, checked separately
 
+/-- The cycle a `Sequential` factor runs through: its levels in order, a level of weight `w` standing
+    `w` times in a row (a weighted level is `w` copies of the level). -/
+def sequentialCycle (d : Design) (f : Nat) : List Nat :=
+  (((d.factor f).levels.map (·.weight)).zipIdx).flatMap (fun p => List.replicate p.1 p.2)
+
 /-- Sequential: levels in order from the start of the factor's crossing. -/
 def sequentialOk (d : Design) (g : Geo) (s : Seq) (f : Nat) : Bool :=
   let c := sustainOf g f
   let pre := (((g.crossings.zip g.preambles).find? (fun p => p.1.factors.contains f)).map (·.2)).getD 0
-  let L := numLevels d f
-  (List.range g.n).all (fun t => t < pre || L == 0 || c == 0 || s.at f t == some (((t - pre) / c) % L))
+  let cyc := sequentialCycle d f
+  let L := cyc.length
+  (List.range g.n).all (fun t => t < pre || L == 0 || c == 0 || s.at f t == cyc[((t - pre) / c) % L]?)
 
 /-- One crossing: every full chunk has each feasible combination exactly
     `weight × crossing weight × sustain` times, a trailing partial chunk at most. -/
